@@ -1363,3 +1363,69 @@ def rule_weights_ctor(F, ev, R, config, rule="R-WEIGHTS-CTOR"):
             ok = v[0] == "agg" and v[1] == ADT_DIAG and len(v[3]) == 1 and v[3][0][1] == ("param", b.key, 1)
             R.add(rule, config, b.key, "DiagMatrix::from(v) keeps v", ok, "" if ok else "DiagMatrix::from yields `%s`" % short(v)[:160], b.j["span"])
     R.floor(rule, config, 3, "builder setter, Weights::diagonal, DiagMatrix::from")
+
+
+def rule_clone_identity(F, ev, R, config, rule="R-CLONE-IDENTITY", adts=None, group=None):
+    """a copy of a state value is that value: every `Clone::clone` of a local type (derived or written by hand) returns, for
+    structs, the aggregate whose field f is (a clone of) self.f for EVERY field, and for enums, per variant, the same variant
+    with (clones of) its own payload fields. A hand-written Clone that fills one field from another (two same-typed
+    counts, say) would make every accessor of the copy answer for a different object."""
+    from terms import IDENTITY
+
+    def strip(t):
+        while t[0] == "call" and len(t) == 5 and t[3] and (t[1] in IDENTITY or t[1].rsplit("::", 1)[-1] in ("clone", "clone_owned", "to_owned", "clone_from")):
+            t = t[3][0]
+        return t
+    if group is not None:
+        adts = set()
+        for g in group:
+            adts |= {"stats": {ADT_STATS}, "problem": {ADT_PROBLEM, cache_adt_path(F)}, "weights": {ADT_WEIGHTS, ADT_DIAG}, "builder": {ADT_PBUILDER}}[g]
+    n = 0
+    for b in sorted(F.bodies.values(), key=lambda x: x.key):
+        im = b.j.get("impl", {})
+        adt = im.get("self_adt")
+        if b.kind == "Closure" or im.get("trait") != "std::clone::Clone" or b.name != "clone" or adt not in F.adts:
+            continue
+        if adts is not None and adt not in adts:
+            continue
+        n += 1
+        me = ("param", b.key, 1)
+        ev.fresh_ctx()
+        v = ev.ret_val(Env(b))
+        alts = v[1] if v[0] == "phi" else (v,)
+        kind = F.adts[adt].get("kind")
+        bad = None
+        if kind == "Enum":
+            want = {vr["name"]: [f["name"] for f in vr["fields"]] for vr in F.adts[adt]["variants"]}
+            seen = set()
+            for a in alts:
+                if a == me:
+                    seen |= set(want)     # `*self` (Copy)
+                    continue
+                if a[0] != "agg" or a[1] != adt or a[2] not in want:
+                    bad = "returns `%s`" % short(a)[:100]
+                    break
+                seen.add(a[2])
+                fv = dict(a[3])
+                for fn_ in want[a[2]]:
+                    x = strip(fv.get(fn_, ("missing",)))
+                    if not (x[0] == "payload" and x[1] == me and x[2] == a[2] and (len(x) < 4 or x[3] == fn_)):
+                        bad = "variant %s: field `%s` of the copy is `%s`" % (a[2], fn_, short(x)[:80])
+            if bad is None and seen != set(want):
+                bad = "variants %s are not copied to themselves" % sorted(set(want) - seen)
+        else:
+            names = [f["name"] for f in struct_fields(F, adt)]
+            if len(alts) == 1 and alts[0] == me:
+                pass
+            elif len(alts) != 1 or alts[0][0] != "agg" or alts[0][1] != adt:
+                bad = "returns `%s`" % short(v)[:120]
+            else:
+                fv = dict(alts[0][3])
+                for fn_ in names:
+                    x = strip(fv.get(fn_, ("missing",)))
+                    if x != ("field", me, fn_):
+                        bad = "field `%s` of the copy is `%s`, not a clone of self.%s" % (fn_, short(x)[:80], fn_)
+                        break
+        R.add(rule, config, b.key, "clone-is-identity:" + adt.rsplit("::", 1)[-1], bad is None,
+              "" if bad is None else "Clone for %s is not the identity copy: %s" % (adt.rsplit("::", 1)[-1], bad), b.j["span"])
+    R.floor(rule, config, 1 if adts is not None else 5, "Clone impls of the state types")
